@@ -145,6 +145,7 @@ structure RefEdit (env env' : Env) (r : RefId) : Prop where
   cached : env'.cached = env.cached
   allowNone : env'.allowNone = env.allowNone
   refs : ∀ r', r' ≠ r → env'.refs r' = env.refs r'
+  alive : env'.alive = env.alive
 
 theorem refEdit_cinv {env env' : Env} {lt : Node → Node → Prop} {s s' : St} {r : RefId}
     {R : List GNode} {D : RefId × Node → Prop}
@@ -200,12 +201,15 @@ theorem refEdit_gi {env env' : Env} {lt : Node → Node → Prop} {s s' : St} {r
 
 /-! ### formula and flag edits -/
 
-/-- an edit of the definition (formula, cache flag, `allow_none`) of cells `c` only -/
+/-- a change of the definition (formula, cache flag, `allow_none`) of cells `c` only – the
+environments `setFormula_cinv` relates when `clear_obj(c)` IS performed (modelx performs it for
+formula and flag edits, not for an `allow_none` edit) -/
 structure CellEdit (env env' : Env) (c : CellId) : Prop where
   formula : ∀ n : Node, n.1 ≠ c → env'.formula n = env.formula n
   cached : ∀ c', c' ≠ c → env'.cached c' = env.cached c'
   allowNone : ∀ c', c' ≠ c → env'.allowNone c' = env.allowNone c'
   refs : env'.refs = env.refs
+  alive : env'.alive = env.alive
 
 theorem setFormula_cinv {env env' : Env} {lt : Node → Node → Prop} {s : St} {c : CellId}
     (hgi : GI env lt s) (hst : s.stack = []) (hinv : CInv env s) (hed : CellEdit env env' c) :
